@@ -7,3 +7,6 @@ import XPathV.Theorems.C15
 #print axioms XPathV.Theorems.C15.comparison_never_crashes
 #print axioms XPathV.Theorems.C15.mod_never_crashes
 #print axioms XPathV.Theorems.C15.logical_select_finite
+#print axioms XPathV.Theorems.C15.C15_main_without_round
+#print axioms XPathV.Theorems.C15.round_finding_witness
+#print axioms XPathV.Theorems.C15.clean_plans_never_crash
